@@ -531,3 +531,23 @@ seeded('seeded-R6C14-so2-modulo-bias', ['C14'], ['C14.draw'])
 seeded('seeded-R6C15-cost-lowered-before-check', ['C15', 'C17'], ['C17.cost'])
 case('c04-so2-tie-nonstrict', ['C04'], ['C04.convex'],
      (SO2, "        if diff_to_from > PI {", "        if diff_to_from >= PI {"))
+
+# ---------------------------------------------------------------- round 7
+seeded('seeded-R7C02-best-goal-kept-across-setup', ['C02', 'C08'], ['C02.goal'])
+seeded('seeded-R7C05-clamp-after-steer', ['C05'], ['C05.radius'])
+seeded('seeded-R7C06-deadline-polled-on-success-count', ['C06'], ['C06.loops'])
+seeded('seeded-R7C11-half-open-canonical-test', ['C11'], ['C11.accept'])
+seeded('seeded-R7C12-total-cmp-bounds', ['C12'], ['C12.stored'])
+seeded('seeded-R7C16-add-despite-blocked-nearest', ['C16', 'C01', 'C17'], ['C01.admit'])
+seeded('seeded-R7C17-skip-siblings-in-rewire', ['C17'], ['C17.rewire'])
+seeded('seeded-R7C18-goal-indices-cached-across-setup', ['C18', 'C08'], ['C18.reuse'])
+seeded('seeded-R7C19-compound-args-swapped', ['C19'], ['C19.args'])
+seeded('seeded-R7C20-lookup-error-is-valid', ['C20'], ['C20.validity'])
+for _k in (1, 2, 3, 4, 5):
+    benign_patch('ben17-r%d' % _k, ALL)                         # RRT: min_by nearest, all() motion check, sample_target()/steer(), loop-as-expression + Option::zip gate, Deadline struct + successors walk
+    benign_patch('ben18-r%d' % _k, ['C19', 'C20'])              # bindings: let-else adapters, f64_property helper, Result combinators, hoisted checker, is_ok_and probes
+    benign_patch('ben19-r%d' % _k, ['C03', 'C04', 'C06', 'C08', 'C09', 'C10', 'C11', 'C12', 'C13', 'C14'])   # SO2/SO3/SE2/SE3: quat_dot/quat_norm, named values, wrap_angle/new-based constructors, slice let-else, bool::then sampler helper
+CASES.append({'name': 'argmin-reversed-comparator', 'props': ['C16'], 'expect': ['C16.nearest'], 'patch': '/verif/selftest/benign/ben17-r1.diff',
+              'edits': [('oxmpl/src/geometric/planners/rrt.rs', 'a.partial_cmp(b).unwrap_or(Ordering::Equal)', 'b.partial_cmp(a).unwrap_or(Ordering::Equal)')]})
+CASES.append({'name': 'argmin-skips-root', 'props': ['C16'], 'expect': ['C16.nearest'], 'patch': '/verif/selftest/benign/ben17-r1.diff',
+              'edits': [('oxmpl/src/geometric/planners/rrt.rs', '            .enumerate()\n            .map(|(index, node)|', '            .enumerate()\n            .skip(1)\n            .map(|(index, node)|')]})
